@@ -1236,6 +1236,9 @@ func ParseDateTime(env envs.Environment, args ...types.XValue) types.XValue {
 	if err != nil {
 		return types.NewXError(err)
 	}
+	if !envs.IsWritableOffset(parsed) {
+		return types.NewXErrorf("cannot parse '%s': time zone offset out of range", str.Native())
+	}
 
 	return types.NewXDateTime(parsed)
 }
